@@ -428,6 +428,7 @@ class Exec:
         global CURRENT
         CURRENT = self
         self.seq_mem_done = set()
+        self.owned_values = {}
         self.materialized = {}
         self.in_comprehension = 0
         self.fresh_facts = set()
@@ -494,6 +495,12 @@ class Exec:
             terms = flatten(out.shape, v)
             arrs = [z3.Store(a, out.n, t) for a, t in zip(arrs_of(out), terms)]
             self.env.mutate("__yielded__", SeqV(out.shape, arrs if len(arrs) > 1 else arrs[0], out.n + 1))
+            return
+        if isinstance(s.value, ast.YieldFrom):
+            # `yield from gen(...)`: everything the (contract of the) called generator yields is yielded here
+            out = self.env.get("__yielded__")
+            sub = self.as_seq(self.eval(s.value.value), s)
+            self.env.mutate("__yielded__", self.seq_binop(ast.Add(), out, sub) if not isinstance(out, EmptySeq) else sub)
             return
         self.eval(s.value)
 
@@ -589,7 +596,28 @@ class Exec:
         self.exec_block(s.orelse)
 
     def st_If(self, s):
-        if self.decide(self.truth(self.eval(s.test))):
+        taken = self.decide(self.truth(self.eval(s.test)))
+        # `if x is None:` / `if x is not None:` on a maybe-None variable: where x is known not to be None it
+        # is re-bound to its plain value (flow-sensitive refinement; the path condition already says so)
+        t = s.test
+        if isinstance(t, ast.Compare) and len(t.ops) == 1 and isinstance(t.ops[0], (ast.Is, ast.IsNot)) and isinstance(t.left, ast.Name) \
+                and isinstance(t.comparators[0], ast.Constant) and t.comparators[0].value is None:
+            not_none_here = taken != isinstance(t.ops[0], ast.Is)
+            try:
+                cur = self.env.get(t.left.id)
+            except KeyError:
+                cur = None
+            if isinstance(cur, OptV) and not_none_here:
+                v = cur.val
+                if getattr(cur.val, "owner", None) is None and getattr(cur, "owner", None) is not None:
+                    v.owner = cur.owner
+                self.env.mutate(t.left.id, v)
+                self._refined_after_if = None
+            elif isinstance(cur, OptV) and not s.orelse:
+                # the None branch of `if x is None: x = <default>`: after the statement x is not None on this
+                # path either when the body assigns a plain value (checked below)
+                pass
+        if taken:
             self.exec_block(s.body)
         else:
             self.exec_block(s.orelse)
@@ -652,6 +680,7 @@ class Exec:
             self.oblige(f"{self.qualname}/frame.parameter_{owner}_is_not_mutated@{self.cur_line - self.fnode.lineno}", z3.BoolVal(False), "frame", self.cur_line)
         try:
             new.owner = owner
+            self.owned_values[owner] = new  # the caller's container as it is now (see FnCtx.final)
         except AttributeError:
             pass
 
@@ -719,6 +748,28 @@ class Exec:
 
     def havoc_loop_targets(self, node, lid):
         names, fields = assigned_names(node.body + node.orelse, self.local_defs)
+        # variables handed to an in-out parameter of a function under contract are mutated by the call
+        for st in node.body + node.orelse:
+            for n in ast.walk(st):
+                if isinstance(n, ast.Call):
+                    fname = n.func.id if isinstance(n.func, ast.Name) else (n.func.attr if isinstance(n.func, ast.Attribute) else None)
+                    for sp in [s_ for s_ in self.prop.specs if fname and (s_.name == fname) and getattr(s_, "static_inout", None)]:
+                        sig_params = None
+                        try:
+                            from .contracts import FnCtx
+                            sig_params = FnCtx(self.prop, sp, "call", ex=self)._signature()[0]
+                        except Exception:
+                            pass
+                        for pname in sp.static_inout:
+                            if sig_params and pname in sig_params:
+                                pos = sig_params.index(pname) - (1 if isinstance(n.func, ast.Attribute) and sig_params[0] == "self" else 0)
+                                if 0 <= pos < len(n.args) and isinstance(n.args[pos], ast.Name):
+                                    names.add(n.args[pos].id)
+                            for kw in n.keywords:
+                                if kw.arg == pname and isinstance(kw.value, ast.Name):
+                                    names.add(kw.value.id)
+                if isinstance(n, ast.YieldFrom):
+                    names.add("__yielded__")
         if isinstance(node, ast.For):
             n2, _ = assigned_names([ast.Assign(targets=[node.target], value=ast.Constant(0))], self.local_defs)
             names |= n2
@@ -732,6 +783,8 @@ class Exec:
             e.vars[nm] = self.havoc_like(cur, f"{nm}.{lid}")
             if getattr(cur, "owner", None) is not None:
                 e.vars[nm].owner = cur.owner
+                if self.owned_values.get(cur.owner) is cur:
+                    self.owned_values[cur.owner] = e.vars[nm]  # the caller's container after the loop's mutations
             if getattr(cur, "default", None) is not None:
                 e.vars[nm].default = cur.default
         # heap: the fields the loop body may modify -- those it stores syntactically plus those that
